@@ -589,7 +589,8 @@ class Bits:
 
     def _setbits(self, bs: BitsType, length: None = None) -> None:
         bs = Bits._create_from_bitstype(bs)
-        self._bitstore = bs._bitstore
+        # Take a copy, as the source could be a mutable bitstring or be shared with the string cache.
+        self._bitstore = bs._bitstore._copy()
 
     def _setp3binary(self, f: float) -> None:
         self._bitstore = bitstore_helpers.p3binary2bitstore(f)
